@@ -118,7 +118,7 @@ std::string roundtrip(const std::vector<F> &vals, ToBits tb) {
     std::string text = os.str();
     std::string out  = tohex(text) + (alt == text ? " same" : " DIFF");
     {
-        std::istringstream is(text + text);
+        std::istringstream is(text);
         Eigen::VectorX<F> v((Eigen::Index)vals.size());
         try {
             alpaqa::csv::read_row_impl<F>(is, v, ',');
@@ -128,6 +128,9 @@ std::string roundtrip(const std::vector<F> &vals, ToBits tb) {
         } catch (std::exception &e) {
             out += " | " + errkind(e);
         }
+    }
+    {
+        std::istringstream is(text);
         try {
             auto w = alpaqa::csv::read_row_std_vector<F>(is, ',');
             out += " | ok " + std::to_string(w.size());
@@ -146,6 +149,7 @@ int main() {
     using Reader = alpaqa::csv::CSVReader<double>;
     std::unique_ptr<std::istringstream> is = std::make_unique<std::istringstream>("");
     Reader rd;
+    bool last_failed = false; // did the previous row / rowv op throw?
     std::string line;
     while (std::getline(std::cin, line)) {
         vp::Toks t(line);
@@ -154,6 +158,7 @@ int main() {
         try {
             if (op == "S") {
                 is  = std::make_unique<std::istringstream>(unhex(t.tok()));
+                last_failed = false;
                 out = "ok";
             } else if (op == "R") {
                 rd  = Reader{};
@@ -196,8 +201,10 @@ int main() {
                     else
                         alpaqa::csv::read_row(*is, Eigen::Ref<Eigen::VectorXd>(v), sep);
                     out = "ok " + vp::fmtv(v);
+                    last_failed = false;
                 } catch (std::exception &e) {
                     out = errkind(e);
+                    last_failed = true;
                 }
                 out += " | " + sstate(*is);
             } else if (op == "rowv") {
@@ -207,10 +214,22 @@ int main() {
                     out    = "ok " + std::to_string(w.size());
                     for (double x : w)
                         out += " " + vp::f2h(x);
+                    last_failed = false;
                 } catch (std::exception &e) {
                     out = errkind(e);
+                    last_failed = true;
                 }
                 out += " | " + sstate(*is);
+            } else if (op == "resyncerr") {
+                // what a caller does after a read_error: clear the flags, skip to the next line
+                if (last_failed) {
+                    is->clear();
+                    is->ignore(std::numeric_limits<std::streamsize>::max(), '\n');
+                    out = "ok | " + sstate(*is);
+                } else {
+                    out = "skip | " + sstate(*is);
+                }
+                last_failed = false;
             } else if (op == "resync") {
                 is->clear();
                 is->ignore(std::numeric_limits<std::streamsize>::max(), '\n');
